@@ -195,4 +195,103 @@ theorem flatten_reshape_spec (outs : List (Arr β)) (rest : List Nat) (m : Nat)
     rw [ravel_append_singleton _ _ _ _ (inRange_length _ _ hc).symm]
     exact getElem?_flatMap_uniform (·.elems) m outs _ j hk hm hj
 
+
+/-- **the central lemma**: `apply_along_axis` applies `f` to every lane and writes the `m` outputs back along the axis -/
+theorem applyAlongAxis_spec (a : Arr α) (zero : α) (zb : β) (axis m : Nat) (f : Arr α → Res (Arr β))
+    (hwf : a.WF) (hax : axis < a.ndim) (hnz : 0 ∉ a.shape)
+    (hf : ∀ lane : List α, lane.length = a.shape.getD axis 0 → ∃ r, f (Arr.flat lane) = .ok r ∧ r.elems.length = m) :
+    ∃ r, a.applyAlongAxis zero zb axis f = .ok r ∧ r.shape = a.shape.set axis m ∧ r.WF ∧
+      ∀ c, inRange r.shape c = true →
+        ∃ y, f (Arr.flat (laneOf a axis c)) = .ok y ∧ r.get? c = y.elems[c.getD axis 0]? := by
+  have hax' : axis < a.shape.length := hax
+  have hP : 0 < (a.shape.eraseIdx axis).prod := prod_pos_of_not_mem _ (not_mem_eraseIdx _ _ hnz)
+  have hn : 0 < a.shape.getD axis 0 := getD_mem_pos _ _ hax hnz
+  have hrl : a.ndim - 1 = (a.shape.eraseIdx axis).length := by simp [List.length_eraseIdx, hax', Arr.ndim]
+  -- stage 1
+  obtain ⟨arr, ha1, ha2, ha3, ha4⟩ := moveLast_spec a zero axis hwf hax
+  have hL : arr.elems.length = (a.shape.eraseIdx axis).prod * a.shape.getD axis 0 := by
+    rw [ha3, ha2]; simp [List.prod_append]
+  -- stage 2
+  have hsplit := split_flat_even arr.elems zero _ _ hP hn hL
+  -- stage 3
+  have hchunk : ∀ k, k < (a.shape.eraseIdx axis).prod →
+      ((arr.elems.drop (k * a.shape.getD axis 0)).take (a.shape.getD axis 0)).length = a.shape.getD axis 0 := by
+    intro k hk
+    rw [List.length_take, List.length_drop, hL]
+    have : (k + 1) * a.shape.getD axis 0 ≤ (a.shape.eraseIdx axis).prod * a.shape.getD axis 0 := Nat.mul_le_mul_right _ hk
+    rw [Nat.add_mul] at this
+    omega
+  obtain ⟨outs, ho1, ho2, ho3⟩ := mapM'_exists f
+    ((List.range (a.shape.eraseIdx axis).prod).map (fun k => Arr.flat ((arr.elems.drop (k * a.shape.getD axis 0)).take (a.shape.getD axis 0))))
+    (by
+      intro x hx
+      simp only [List.mem_map, List.mem_range] at hx
+      obtain ⟨k, hk, rfl⟩ := hx
+      obtain ⟨r, hr, _⟩ := hf _ (hchunk k hk)
+      exact ⟨r, hr⟩)
+  simp only [List.length_map, List.length_range] at ho2 ho3
+  have hom : ∀ x ∈ outs, x.elems.length = m := by
+    intro x hx
+    obtain ⟨i, hi, rfl⟩ := List.getElem_of_mem hx
+    have h1 := ho3 i (by omega) hi
+    simp only [List.getElem_map, List.getElem_range] at h1
+    obtain ⟨r, hr, hrm⟩ := hf _ (hchunk i (by omega))
+    rw [hr] at h1
+    cases h1; exact hrm
+  have h0 : 0 < outs.length := by omega
+  have hidx : Res.idx outs 0 = .ok outs[0] := by simp [Res.idx, h0]
+  have hp0 : outs[0].len = m := hom _ (List.getElem_mem h0)
+  obtain ⟨p, hp1, hp2, hp3, hp4⟩ := flatten_reshape_spec outs (a.shape.eraseIdx axis) m ho2 hom
+  -- stage 4
+  obtain ⟨r, hr1, hr2, hr3, hr4⟩ := moveBack_spec p zb (a.shape.eraseIdx axis) m axis hp3 hp2 (by omega)
+  refine ⟨r, ?_, ?_, hr3, ?_⟩
+  · unfold Arr.applyAlongAxis
+    rw [if_neg (by omega)]
+    simp only [ha1, Res.bind_ok, Arr.ravel, hsplit, ho1, hidx, hp0, ha2]
+    rw [set_append_singleton _ _ _ _ hrl, hp1, hrl]
+    exact hr1
+  · rw [hr2, insertIdx_eraseIdx_self _ _ _ hax']
+  · intro c hc
+    rw [hr2, insertIdx_eraseIdx_self _ _ _ hax'] at hc
+    have hcl : c.length = a.shape.length := by have := inRange_length _ _ hc; simpa using this
+    have hc' : inRange (a.shape.eraseIdx axis) (c.eraseIdx axis) = true := by
+      have := inRange_eraseIdx _ _ axis hc
+      rwa [List.eraseIdx_set_eq] at this
+    have hj : c.getD axis 0 < m := by
+      have := inRange_getD_lt _ _ axis hc (by simpa using hax')
+      rwa [getD_set_self _ _ _ hax'] at this
+    have h4 := hr4 _ _ hc' hj
+    rw [insertIdx_eraseIdx_getD c axis (by omega)] at h4
+    obtain ⟨hk, h5⟩ := hp4 _ _ hc' hj
+    have h6 := ho3 _ (by omega) hk
+    simp only [List.getElem_map, List.getElem_range] at h6
+    rw [chunk_eq_lane a arr axis m c hax ha2 ha4 hc] at h6
+    exact ⟨_, h6, h4.trans h5⟩
+
+
+theorem getElem?_filterMap_of_isSome (f : α → Option β) : ∀ (l : List α) (i : Nat), (∀ x ∈ l, (f x).isSome = true) →
+    (l.filterMap f)[i]? = l[i]?.bind f
+  | [], _, _ => by simp
+  | x :: xs, i, h => by
+    obtain ⟨y, hy⟩ := Option.isSome_iff_exists.1 (h x List.mem_cons_self)
+    rw [List.filterMap_cons_some hy]
+    cases i with
+    | zero => simp [hy]
+    | succ i => simpa using getElem?_filterMap_of_isSome f xs i (fun z hz => h z (List.mem_cons_of_mem _ hz))
+
+/-- element `j` of the lane through `c` is the element of `a` at `c` with coordinate `axis` set to `j` -/
+theorem laneOf_getElem? (a : Arr α) (axis m : Nat) (c : List Nat) (hwf : a.WF) (hc : inRange (a.shape.set axis m) c = true)
+    (j : Nat) (hj : j < a.shape.getD axis 0) : (laneOf a axis c)[j]? = a.get? (c.set axis j) := by
+  unfold laneOf
+  rw [getElem?_filterMap_of_isSome]
+  · rw [List.getElem?_range hj]; rfl
+  · intro k hk
+    exact get?_isSome_of_inRange a hwf _ (inRange_set_axis _ _ _ _ _ hc (by simpa using hk))
+
+/-- an axis outside the rank is refused -/
+theorem applyAlongAxis_axis_err (a : Arr α) (zero : α) (zb : β) (axis : Nat) (f : Arr α → Res (Arr β)) (h : a.ndim ≤ axis) :
+    a.applyAlongAxis zero zb axis f = .err .AxisOutOfBounds := by
+  unfold Arr.applyAlongAxis
+  rw [if_pos h]
+
 end ArrModel
